@@ -159,6 +159,13 @@ class Check:
     return 1 if new else 0
 
 
+def unlisted_violations(chk):
+  """Violations of `chk` that the known-findings file does not list."""
+  known = load_known()
+  listed = {(k['property'], k['rule'], norm_text(k['key'])) for k in known.get('findings', [])}
+  return [v for v in chk.violations if (chk.pid, v['rule'], v['key']) not in listed]
+
+
 def load_known():
   if not os.path.exists(KNOWN):
     return {}
